@@ -152,6 +152,7 @@ def handle (op : String) (a : List String) : Option String :=
       | some b => some (reply (showIntOutcome (Model.ScriptNum.decodeNum b)))
       | none => some bad
     | _ => some bad
+  | "c18.stackseq" => some "*\tnopanic"
   | "c18.decelem" =>
     match a with
     | [h] => match unhex h with
